@@ -389,6 +389,75 @@ def client_flight_sequences(ctx, maxlen, part, nparts, request):
     ctx.extra["exhaustive"] = True
 
 
+
+def psk_client_hellos(ctx):
+    """ClientHello messages that offer a pre-shared key to an aioquic server holding the ticket: the binder is the only thing that authenticates the
+    PSK and everything derived from it (the 0-RTT read key, 'resumed').  Exhaustive over resumption secret x identity x psk modes x early_data x age."""
+    import itertools
+    import aioquic.tls as T
+    from vlib import endpoints as E, tlsbench as B, reftls as L
+
+    with E.pinned(("c11-psk-ch", "ticket")):
+        store = {}
+        sv0 = B.Ctx(False, ticket_store=store)
+        rc0 = B.ref_client()
+        out = sv0.feed(rc0.client_hello())
+        rc0.receive_server_flight(out["INITIAL"])
+        rc0.receive_server_flight(out["HANDSHAKE"])
+        sv0.feed(rc0.finished())
+        nst = [m for m in rc0.receive_server_flight(out["ONE_RTT"]) if m["type"] == 4]
+        if not nst or not sv0.done():
+            raise RuntimeError("harness: no session ticket from the aioquic server")
+        good = rc0.ticket_psk(nst[0])
+    n = len(good["key"])
+    keys = {"genuine": good["key"], "zeros": bytes(n), "one-bit-off": bytes([good["key"][0] ^ 1]) + good["key"][1:], "last-bit-off": good["key"][:-1] + bytes([good["key"][-1] ^ 0x80])}
+    idents = {"known": good["identity"], "unknown": bytes(len(good["identity"])), "known-plus-byte": good["identity"] + b"\x00"}
+    modes = {"dhe": (L.PSK_DHE_KE,), "ke": (L.PSK_KE,), "ke+dhe": (L.PSK_KE, L.PSK_DHE_KE), "absent": None}
+    ages = {"right": good["obfuscated_age"], "zero": 0, "max": (1 << 32) - 1}
+    for (kn, key), (idn, ident), (mn, mode), early, (an, age) in itertools.product(keys.items(), idents.items(), modes.items(), (False, True), ages.items()):
+        case = {"kind": "pskch", "key": kn, "identity": idn, "modes": mn, "early_data": early, "age": an}
+        authentic = kn == "genuine" and idn == "known"
+        with E.pinned(("c11-psk-ch", kn, idn, mn, early, an)):
+            sv = B.Ctx(False, ticket_store=dict(store))
+            rc = B.ref_client(psk=dict(good, key=key, identity=ident, obfuscated_age=age), psk_modes=mode, early_data=early)
+            state0 = sv.state
+            err = None
+            try:
+                out = sv.feed(rc.client_hello())
+            except T.Alert as a:
+                err = a
+            except Exception as e:
+                err = e
+            zero_rtt = [k for k in sv.keys if k[1] == "ZERO_RTT"]
+            outcome = "refused" if err is not None else ("resumed" if sv.ctx.session_resumed else "full-handshake")
+            ctx.case(("pskch", kn, idn, mn, early, an), nontrivial=not authentic and idn == "known", classes=["psk-client-hello:" + outcome, "psk-client-hello:" + ("authentic" if authentic else "binder-does-not-verify" if idn == "known" else "identity-" + idn)])
+            if zero_rtt and not authentic:
+                ctx.violation("zero-rtt-key-released-without-verified-binder", "ClientHello offering the ticket identity (%s) with resumption secret %s, modes %s, early_data %s: the server released %r although the binder does not verify (outcome: %s, %r)" % (idn, kn, mn, early, zero_rtt, outcome, err), case)
+            if zero_rtt and not early:
+                ctx.violation("zero-rtt-key-released-without-early-data-offer", "the server released %r for a ClientHello without the early_data extension" % (zero_rtt,), case)
+            if not authentic and (sv.ctx.session_resumed or sv.ctx.early_data_accepted) :
+                ctx.violation("session-resumed-without-verified-binder", "secret %s, identity %s: the server context reports session_resumed=%s early_data_accepted=%s (outcome: %s, %r)" % (kn, idn, sv.ctx.session_resumed, sv.ctx.early_data_accepted, outcome, err), case)
+            if err is not None and (sv.keys or sv.state != state0):
+                ctx.violation("refused-client-hello-installed-keys", "the ClientHello (secret %s, identity %s) was refused with %r but left state %s and keys %r" % (kn, idn, err, sv.state, sv.keys), case)
+            if authentic and mn in ("dhe", "ke+dhe") and an == "right" and outcome != "resumed":
+                ctx.violation("server-refused-genuine-psk", "the genuine ticket with a verifying binder was not resumed: %s %r" % (outcome, err), case)
+            if err is None:
+                # the handshake goes on: the reference client must be able to finish it, as a resumption iff the server says so
+                try:
+                    rc.receive_server_flight(out["INITIAL"])
+                    rc.receive_server_flight(out["HANDSHAKE"])
+                    sv.feed(rc.finished())
+                    if not sv.done():
+                        ctx.violation("handshake-after-psk-offer-does-not-complete", "outcome %s: the server did not complete after the reference client's Finished" % outcome, case)
+                    elif bool(rc.psk_selected) != bool(sv.ctx.session_resumed):
+                        ctx.violation("psk-selection-disagrees", "reference client psk_selected=%s, server session_resumed=%s" % (rc.psk_selected, sv.ctx.session_resumed), case)
+                except L.HandshakeError as e:
+                    ctx.violation("handshake-after-psk-offer-does-not-complete", "outcome %s: the reference client refused the server's flight: %r" % (outcome, e), case)
+            if ctx.want_sample():
+                ctx.sample(dict(case, outcome=outcome))
+    ctx.extra["exhaustive"] = True
+
+
 def replay(ctx, case):
     k = case.get("kind")
     if k == "table":
@@ -397,6 +466,8 @@ def replay(ctx, case):
         server_flight_sequences(ctx, max(len(case["seq"]), 1), 0, 1, case["psk"], case.get("leaf", "ed25519"))
     elif k == "cseq":
         client_flight_sequences(ctx, max(len(case["seq"]), 1), 0, 1, case["request"])
+    elif k == "pskch":
+        psk_client_hellos(ctx)
 
 
 def plan(tier, seed):
@@ -411,6 +482,7 @@ def plan(tier, seed):
     t.append(("server-flight-psk-offered-not-selected", {"fn": "sf", "maxlen": 4 if q else 5, "part": 0, "nparts": 1, "psk": "offered"}))
     for leaf in ("selfsigned", "foreign", "expired", "wrongname"):
         t.append(("server-flight-untrusted-%s" % leaf, {"fn": "sf", "maxlen": 4 if q else 5, "part": 0, "nparts": 1, "psk": False, "leaf": leaf}))
+    t.append(("psk-client-hellos", {"fn": "pskch"}))
     for req in (False, True):
         for p in range(2):
             t.append(("client-flight-%s-part%d" % ("requested" if req else "plain", p), {"fn": "cf", "maxlen": 5 if q else 6, "part": p, "nparts": 2, "request": req}))
@@ -420,6 +492,8 @@ def plan(tier, seed):
 def run_task(ctx, name, fn, **kw):
     if fn == "table":
         table(ctx, kw["state"])
+    elif fn == "pskch":
+        psk_client_hellos(ctx)
     elif fn == "sf":
         server_flight_sequences(ctx, kw["maxlen"], kw["part"], kw["nparts"], kw["psk"], kw.get("leaf", "ed25519"))
     else:
